@@ -448,7 +448,7 @@ class HTTP1Connection(httputil.HTTPConnection):
             # If a 1.0 client asked for keep-alive (and will get it), add the header.
             if (
                 self._request_start_line.version == "HTTP/1.0"
-                and self._request_headers.get("Connection", "").lower() == "keep-alive"
+                and "keep-alive" in _connection_options(self._request_headers)
                 and not self._disconnect_on_finish
             ):
                 headers["Connection"] = "Keep-Alive"
@@ -576,11 +576,9 @@ class HTTP1Connection(httputil.HTTPConnection):
     ) -> bool:
         if self.params.no_keep_alive:
             return False
-        connection_header = headers.get("Connection")
-        if connection_header is not None:
-            connection_header = connection_header.lower()
+        connection_options = _connection_options(headers)
         if start_line.version == "HTTP/1.1":
-            return connection_header != "close"
+            return "close" not in connection_options
         elif (
             "Content-Length" in headers
             or is_transfer_encoding_chunked(headers)
@@ -588,7 +586,7 @@ class HTTP1Connection(httputil.HTTPConnection):
         ):
             # start_line may be a request or response start line; only
             # the former has a method attribute.
-            return connection_header == "keep-alive"
+            return "keep-alive" in connection_options
         return False
 
     def _finish_request(self, future: "Optional[Future[None]]") -> None:
@@ -905,6 +903,19 @@ def parse_hex_int(s: str) -> int:
     if HEXDIGITS.fullmatch(s) is None:
         raise ValueError("not a hexadecimal integer: %r" % s)
     return int(s, 16)
+
+
+def _connection_options(headers: httputil.HTTPHeaders) -> list[str]:
+    """Returns the lower-cased connection options of the ``Connection`` header.
+
+    The header is a comma-separated list of case-insensitive tokens
+    (RFC 9110 section 7.6.1), e.g. ``Connection: close, TE``.
+    """
+    return [
+        option.strip(" \t").lower()
+        for option in headers.get("Connection", "").split(",")
+        if option.strip(" \t")
+    ]
 
 
 def is_transfer_encoding_chunked(headers: httputil.HTTPHeaders) -> bool:
